@@ -7,7 +7,7 @@ from vlib import log, Check, SEED
 
 def iso_cfg(dbs, ops):
     return ('Isolation.cfg', '''SPECIFICATION Spec
-CONSTANTS DB = {%s}  MaxOps = %d
+CONSTANTS DB = {%s}  Closed = {"d2"}  MaxOps = %d
 INVARIANTS StatusIsCount
 PROPERTIES NonInterference
 CHECK_DEADLOCK FALSE
@@ -53,8 +53,13 @@ def c09(prop, tier):
     total = {'behaviours': 0, 'steps': 0, 'comparisons': 0, 'violations': 0}
     for n in (2, 3, 4):
         sub = [b for b in bs if len(b['dbs']) == n]
-        inp = {'property': prop, 'seed': SEED, 'dbs': ['d1', 'd2', 'd3', 'd4'][:n], 'behaviours': sub}
+        inp = {'property': prop, 'seed': SEED, 'dbs': ['d1', 'd2', 'd3', 'd4'][:n], 'closed': ['d2'], 'behaviours': sub}
         res = vlib.run_vh('isolation', inp, tag='C09-%d' % n, timeout=900 if not thorough else 3000)
+        # a closed database that merges the remote writer's entry without that writer having been accepted elsewhere is C03's matter
+        other = [v for v in res.get('violations', []) if v['kind'] == 'closed-db-merged']
+        res['violations'] = [v for v in res.get('violations', []) if v['kind'] != 'closed-db-merged']
+        if other:
+            ck.notes.append('%d observation(s) of kind closed-db-merged left to C03' % len(other))
 
         def payload(v, inp=inp, sub=sub):
             b = [x for x in sub if x['id'] == v['behaviour']]
